@@ -32,16 +32,30 @@ struct Mon {
    std::vector<uint32> replies;          // what the owner received, in order
    std::vector<std::string> violations;
    volatile bool nullQueued;
-   void Reset() {enqInt.clear(); enqOwn.clear(); handled.clear(); replies.clear(); violations.clear(); nullQueued = false;}
+   long qlen[2];                         // current length of the two queues (from the events emitted inside the queue critical sections)
+   void Reset() {enqInt.clear(); enqOwn.clear(); handled.clear(); replies.clear(); violations.clear(); nullQueued = false; qlen[0] = qlen[1] = 0;}
    void V(const std::string & s) {if (violations.size() < 5) violations.push_back(s);}
 };
 static Mon M;
 static thread_local uint32 tl_curMsg = 0;     // the Message the calling thread is sending (0 = NULL)
 
+static const uint64 FAR_FUTURE = ((uint64)1)<<60;   // "timed": a real deadline that never passes by itself; the scheduler decides when it fires
+static bool g_timedLoop = false;
 class EchoThread : public Thread {
 public:
    EchoThread(bool sockets) : Thread(sockets) {}
 protected:
+   // the default loop waits without a deadline; the other variant is the loop of testthread.cpp: waits with a deadline, goes round on B_TIMED_OUT
+   virtual void InternalThreadEntry()
+   {
+      if (!g_timedLoop) {Thread::InternalThreadEntry(); return;}
+      while(true) {
+         MessageRef m; uint32 left = 0;
+         const status_t r = WaitForNextMessageFromOwner(m, FAR_FUTURE, &left);
+         if (r.IsError()) {if (r == B_TIMED_OUT) continue; else break;}
+         if (MessageReceivedFromOwner(m, left).IsError()) break;
+      }
+   }
    virtual status_t MessageReceivedFromOwner(const MessageRef & m, uint32)
    {
       if (m() == NULL) return B_SHUTTING_DOWN;
@@ -60,9 +74,10 @@ static void ObserveEvent(const vs::Event & e)
       const int d = (e.a[0] == 0) ? 0 : 1;
       const uint32 m = e.a[3] ? tl_curMsg : 0;
       if (d == 0) {M.enqInt.push_back(m); if (m == 0) M.nullQueued = true;} else M.enqOwn.push_back(m);
+      M.qlen[d] = e.a[1];
       TL("Enq", t, d, (long) m, e.a[1], e.a[2]);
    }
-   else if (e.name == "Dequeue") TL("Deq", t, (e.a[0] == 0) ? 0 : 1, e.a[1], e.a[2]);
+   else if (e.name == "Dequeue") {M.qlen[(e.a[0] == 0) ? 0 : 1] = e.a[2]; TL("Deq", t, (e.a[0] == 0) ? 0 : 1, e.a[1], e.a[2]);}
    else if (e.name == "Signal")  TL("Signal", t, (e.a[0] == 1) ? 0 : 1, e.a[1]);
    else if (e.name == "EntryCheck") TL("Entry", 'I', -1, e.a[0]);
 }
@@ -91,13 +106,26 @@ static void ObserveResume(vs::LThread * me, int kind, const void * obj, int resu
    else if (kind == vs::YIELD_WC_WAIT) {const int d = DirOfWC(obj); if (d >= 0) TL(result ? "WakeTimeout" : "Wake", TName(me->id), d);}
 }
 
-struct Plan {int nMsgs; int preSends; int rounds; int nExtra; std::vector<int> pollAfter; uint32 rnd;};
+// a wait with a deadline returned B_TIMED_OUT.  Deadlines are far away: when the scheduler had to fire one because no thread could run
+// otherwise and a Message is queued for this receiver, the receiver was not woken for it - it would have slept until its deadline.
+static void ObserveTimeout(vs::LThread * me)
+{
+   if ((!me->stuckPick)||(me->willIntr)) return;
+   const char t = TName(me->id); const int d = (t == 'O') ? 1 : 0;
+   if ((t != 'S')&&(M.qlen[d] > 0)) {char b[200]; snprintf(b, sizeof(b), "LOST WAKE-UP: %s is blocked in a wait with a deadline although %ld Message(s) are queued for it, and nothing else can run: it sleeps until its deadline", (t == 'O') ? "the owner" : "the internal thread", M.qlen[d]); M.V(b);}
+}
+struct Plan {int nMsgs; int preSends; int rounds; int nExtra; std::vector<int> pollAfter; uint32 rnd; bool timedLoop; bool ownerTimed; int intr; bool stuckOnly;};
 static Plan g_plan;
 
-static void DrainReplies(bool block)
+static void DrainReplies(int mode)     // 0 = poll, 1 = wait without a deadline (only when a reply is certain), 2 = wait with a deadline
 {
    MessageRef r;
-   if (block) {
+   if (mode == 2) {
+      TL("OWaitTimed", 'O', -1);
+      const status_t s = g_t->GetNextReplyFromInternalThread(r, FAR_FUTURE);
+      if (s.IsOK()) M.replies.push_back(r()->what);
+      else if (s != B_TIMED_OUT) M.V(std::string("GetNextReplyFromInternalThread with a deadline returned ")+s());
+   } else if (mode == 1) {
       TL("OWait", 'O', -1);
       const status_t s = g_t->GetNextReplyFromInternalThread(r, MUSCLE_TIME_NEVER);
       if (s.IsOK()) M.replies.push_back(r()->what);
@@ -124,16 +152,17 @@ static void OwnerMain()
       while (sent < g_plan.nMsgs) {
          const uint32 m = round*10+sent+1; sent++; tl_curMsg = m; TL("OSend", 'O', -1, m);
          (void) g_t->SendMessageToInternalThread(GetMessageFromPool(m)); vs::OpBoundary();
-         const int k = (int)(gen()%3);
-         if (k == 0) {DrainReplies(false); vs::OpBoundary();}
-         else if ((k == 1)&&(NonNullSent() > M.replies.size())) {DrainReplies(true); vs::OpBoundary();}
+         const int k = (int)(gen()%(g_plan.ownerTimed ? 4 : 3));
+         if (k == 0) {DrainReplies(0); vs::OpBoundary();}
+         else if ((k == 1)&&(NonNullSent() > M.replies.size())) {DrainReplies(1); vs::OpBoundary();}
+         else if (k == 3) {DrainReplies(2); vs::OpBoundary();}
       }
-      if (gen()%2) while (NonNullSent() > M.replies.size()) {DrainReplies(true); vs::OpBoundary();}    // sometimes wait for all replies before shutting down
+      if (gen()%2) while (NonNullSent() > M.replies.size()) {DrainReplies(((g_plan.ownerTimed)&&(gen()%2)) ? 2 : 1); vs::OpBoundary();}    // sometimes wait for all replies before shutting down
       tl_curMsg = 0;
       if (gen()%3 == 0) {
          // the two-call form: ask the thread to quit now, collect it later
          TL("OShutdownNoWait", 'O', -1); g_t->ShutdownInternalThread(false); vs::OpBoundary();
-         if (gen()%2) {DrainReplies(false); vs::OpBoundary();}
+         if (gen()%2) {DrainReplies(((g_plan.ownerTimed)&&(gen()%2)) ? 2 : 0); vs::OpBoundary();}
          TL("OWaitExit", 'O', -1); (void) g_t->WaitForInternalThreadToExit();
       } else {
          TL("OShutdown", 'O', -1);
@@ -183,13 +212,15 @@ int main(int argc, char ** argv)
    for (uint32 it=0; it<iters; it++) {
       const uint32 seed = seed0*1000003u+it; std::mt19937 gen(seed*2654435761u+7);
       g_plan.nMsgs = 1+(int)(gen()%3); g_plan.preSends = (int)(gen()%3) % (g_plan.nMsgs+1); g_plan.rounds = 1+(int)(gen()%2); g_plan.nExtra = (int)(gen()%3); g_plan.rnd = gen();
-      char key[64]; snprintf(key, sizeof(key), "%d/%d/%d/%d/%u", g_plan.nMsgs, g_plan.preSends, g_plan.rounds, g_plan.nExtra, g_plan.rnd%8); distinct.insert(key);
+      g_plan.timedLoop = (gen()%3) == 0; g_plan.ownerTimed = (gen()%2) == 0; g_plan.intr = (sockets) ? (int)(gen()%3) : 0; g_plan.stuckOnly = (gen()%4) != 0; g_timedLoop = g_plan.timedLoop;
+      char key[64]; snprintf(key, sizeof(key), "%d/%d/%d/%d/%u/%d%d%d", g_plan.nMsgs, g_plan.preSends, g_plan.rounds, g_plan.nExtra, g_plan.rnd%8, (int) g_plan.timedLoop, (int) g_plan.ownerTimed, g_plan.intr); distinct.insert(key);
       g_t = new EchoThread(sockets);
       g_record = (tf != NULL)&&(tracesWritten < (long) ntraces); g_trace.clear();
 #ifdef VERIF_NO_PRIVATE
       g_record = false;     // trace lines need the addresses of the two ThreadSpecificData objects
 #endif
-      vs::Reset(seed, vs::RANDOM); vs::S.onEvent = ObserveEvent; vs::S.onYield = ObserveYield; vs::S.onResume = ObserveResume; vs::S.stickiness = (int)(gen()%3)*35;
+      vs::Reset(seed, vs::RANDOM); vs::S.onEvent = ObserveEvent; vs::S.onYield = ObserveYield; vs::S.onResume = ObserveResume; vs::S.onTimeout = ObserveTimeout; vs::S.stickiness = (int)(gen()%3)*35;
+      vs::S.timeoutsWhenStuckOnly = g_plan.stuckOnly; vs::S.intrBudget = g_plan.intr; vs::S.intrOneIn = 4;
       vs::S.atomicLocks = g_record;   // recorded executions keep queue critical sections atomic, as the specification does
       M.Reset();
       std::vector<std::thread> ths;
@@ -203,14 +234,14 @@ int main(int argc, char ** argv)
          violated++;
          mj::Value rec = mj::Value::Obj(); rec.set("seed", mj::Value::Int(seed)).set("iteration", mj::Value::Int(it)).set("sockets", mj::Value::Bool(sockets));
          mj::Value va = mj::Value::Arr(); for (size_t k=0; k<M.violations.size(); k++) va.push(mj::Value::Str(M.violations[k])); rec.set("violations", va);
-         mj::Value pl = mj::Value::Obj(); pl.set("msgs", mj::Value::Int(g_plan.nMsgs)).set("pre_start_sends", mj::Value::Int(g_plan.preSends)).set("rounds", mj::Value::Int(g_plan.rounds)).set("extra_sender_msgs", mj::Value::Int(g_plan.nExtra)); rec.set("plan", pl);
+         mj::Value pl = mj::Value::Obj(); pl.set("msgs", mj::Value::Int(g_plan.nMsgs)).set("pre_start_sends", mj::Value::Int(g_plan.preSends)).set("rounds", mj::Value::Int(g_plan.rounds)).set("extra_sender_msgs", mj::Value::Int(g_plan.nExtra)).set("internal_loop_waits_with_deadline", mj::Value::Bool(g_plan.timedLoop)).set("owner_waits_with_deadline", mj::Value::Bool(g_plan.ownerTimed)).set("interrupted_selects", mj::Value::Int(g_plan.intr)); rec.set("plan", pl);
          mj::Value h = mj::Value::Arr(); for (size_t k=0; k<M.handled.size(); k++) h.push(mj::Value::Int(M.handled[k])); rec.set("handled", h);
          mj::Value q = mj::Value::Arr(); for (size_t k=0; k<M.enqInt.size(); k++) q.push(mj::Value::Int(M.enqInt[k])); rec.set("enqueued_for_internal", q);
          mj::Value r = mj::Value::Arr(); for (size_t k=0; k<M.replies.size(); k++) r.push(mj::Value::Int(M.replies[k])); rec.set("replies", r);
          if (violated <= 20) fprintf(out, "%s\n", mj::ToString(rec).c_str());
       }
       if ((g_record)&&(ok)) {
-         fprintf(tf, "{\"e\":\"Reset\"}\n");
+         fprintf(tf, "{\"e\":\"Reset\",\"tl\":%d}\n", g_plan.timedLoop ? 1 : 0);
          for (size_t k=0; k<g_trace.size(); k++) {const TraceLine & l = g_trace[k]; fprintf(tf, "{\"e\":\"%s\",\"t\":\"%c\",\"d\":\"%s\",\"a\":%ld,\"b\":%ld,\"c\":%ld}\n", l.e.c_str(), l.t, (l.d == 0) ? "int" : ((l.d == 1) ? "own" : "none"), l.a, l.b, l.c);}
          tracesWritten++; traceLines += (long) g_trace.size()+1;
       }
